@@ -161,17 +161,32 @@ def gen_file(isa, r):
     }
 
 
+def _off(d):
+    return "=" if d == 0 else ("%+d" % d if abs(d) <= 3 else ("+far" if d > 0 else "-far"))
+
+
 def classify_selection(got, exp, layout):
-    """Mechanism key for a wrong selection."""
+    """Mechanism key for a wrong selection: offset of the first / last selected line, small offsets literally."""
     if not exp and got:
         return "extra-lines-for-empty-body"
     if got and exp:
-        a = "start" + ("+%d" % (got[0] - exp[0]) if got[0] > exp[0] else "%d" % (got[0] - exp[0]) if got[0] < exp[0] else "=")
-        b = "end" + ("+%d" % (got[-1] - exp[-1]) if got[-1] > exp[-1] else "%d" % (got[-1] - exp[-1]) if got[-1] < exp[-1] else "=")
-        if a == "start=" and b == "end=":
+        a, b = _off(got[0] - exp[0]), _off(got[-1] - exp[-1])
+        if a == "=" and b == "=":
             return "inner-lines-differ"
-        return a + "/" + b
+        return "start%s/end%s" % (a, b)
     return "nothing-selected"
+
+
+def classify_named(got, exp):
+    """Mechanism key for a wrong --lines selection."""
+    g, e = set(got), set(exp)
+    if g < e:
+        return "named-lines-missing"
+    if g > e:
+        return "unnamed-lines-analysed"
+    if len(got) != len(set(got)):
+        return "line-analysed-twice"
+    return "other-lines-analysed"
 
 
 # ------------------------------------------------------------------------------------------------ drivers / monitors
@@ -465,7 +480,7 @@ def check_lines(c, R, workdir=None, e2e=False, r=None):
         os.unlink(path)
     R.count("monitor:inspect_lines")
     if snap["lines"] != exp:
-        R.violation("inspect-lines/" + classify_selection(snap["lines"], exp, None),
+        R.violation("inspect-lines/" + classify_named(snap["lines"], exp),
                     "--lines %s: inspect() analysed lines %s, named (non-blank) lines %s" % (c["s"], snap["lines"][:40], exp[:40]), c)
 
 
@@ -656,8 +671,8 @@ def floors(tier):
         "lines_with:dash": 50 if q else 800,
         "lines_with:colon": 50 if q else 800,
         "lines_with:comma": 50 if q else 800,
-        "set:meta_models": 6 if q else 17,
-        "set:meta_files": 15 if q else 55,
+        "set:meta_models": 6 if q else 12,
+        "set:meta_files": 15 if q else 40,
     }
     for isa in ("x86", "aarch64"):
         for s in STYLES[isa]:
